@@ -1,9 +1,64 @@
 import ALV.Common.Json
+import ALV.Model.C11
+import ALV.Spec.C11
 namespace ALV.Driver.C11
-open ALV ALV.J
+open ALV ALV.J ALV.C11
 
-/-- stub: the C11 slice is not built yet -/
-def handle (entry : String) (_j : Json) : Except String Json :=
-  throw s!"C11: unknown entry {entry}"
+def ksJson (r : List Rat × Bool) : Json :=
+  Json.mkObj [("ks", rats r.1), ("raised", Json.bool r.2)]
+
+def handle (entry : String) (j : Json) : Except String Json := do
+  match entry with
+  | "parcor" =>
+    -- list(parcor(ZFilter(num, den)))
+    let num ← getList getRat (← field j "num")
+    let den ← getList getRat (← field j "den")
+    let model := match parcorCodedE den num with
+      | none => Json.mkObj [("err", Json.str "ValueError")]
+      | some r => ksJson r
+    let sp := parcorSpec num
+    pure <| Json.mkObj [
+      ("model", model), ("fixed", ksJson (parcorFixed num)), ("spec", ksJson sp),
+      ("rebuilt", rats (stepUp sp.1.reverse)), ("monic", rats (monic (stripZeros num)))]
+  | "stepup" =>
+    -- parcor(ZFilter(stepUp ks)) against ks
+    let ks ← getList getRat (← field j "ks")
+    let f := stepUp ks
+    pure <| Json.mkObj [
+      ("filter", rats f), ("model", ksJson (parcorCoded 1 f)), ("fixed", ksJson (parcorFixed f)),
+      ("spec", ksJson (parcorSpec f)), ("expected", rats ks.reverse)]
+  | "stable" =>
+    -- parcor_stable(num / den), den built from prescribed poles
+    let g ← getRat (← field j "gain")
+    let reals ← getList getRat (← field j "reals")
+    let pairs ← getList (fun p => do
+      let l ← getList getRat p
+      match l with
+      | [a, b] => pure (a, b)
+      | _ => throw "pair expected") (← field j "pairs")
+    let den := fromPoles g reals pairs
+    pure <| Json.mkObj [
+      ("den", rats den), ("model", Json.bool (parcorStableCoded den)),
+      ("fixed", Json.bool (parcorStableFixed den)), ("spec", Json.bool (parcorStableSpec den)),
+      ("inside", Json.bool (polesInside reals pairs)),
+      ("ks", ksJson (parcorSpec den)), ("ks_model", ksJson (parcorCoded 1 den))]
+  | "stable_den" =>
+    -- parcor_stable on an explicit denominator
+    let den ← getList getRat (← field j "den")
+    pure <| Json.mkObj [
+      ("model", Json.bool (parcorStableCoded den)), ("fixed", Json.bool (parcorStableFixed den)),
+      ("spec", Json.bool (parcorStableSpec den)),
+      ("ks", ksJson (parcorSpec den)), ("ks_model", ksJson (parcorCoded 1 den))]
+  | "levinson" =>
+    let r ← getList getRat (← field j "r")
+    let order ← getNat (← field j "order")
+    match levinson r order with
+    | none => pure <| Json.mkObj [("model", Json.mkObj [("err", Json.str "ParCorError")])]
+    | some (a, e, ks) =>
+      pure <| Json.mkObj [
+        ("model", Json.mkObj [("a", rats a), ("error", ratToJson e), ("ks", rats ks)]),
+        ("spec", Json.mkObj [("a", rats (stepUp ks)), ("error", ratToJson (errorSpec (r.headD 0) ks)),
+                             ("parcor", ksJson (parcorSpec a)), ("expected", rats ks.reverse)])]
+  | _ => throw s!"C11: unknown entry {entry}"
 
 end ALV.Driver.C11
